@@ -157,7 +157,7 @@ def extra_sd(res, lean, tier, rnd):
         res.failures.append({'kind': 'kdiff', 'detail': 'cannot build the shutdown-protocol driver: ' + err}); return
     before = len(res.failures)
     lines = [l for l in core.corpus_lines(PROP) if l.startswith('sd ')] + sd_lines(tier, rnd)
-    core.kdiff(res, lean, sdrv, lines, oracle=oracle_sd, classify=lambda l, o: ('sd', l.split()[1], o), tag='sd:')
+    core.kdiff(res, lean, sdrv, lines, oracle=oracle_sd, classify=lambda l, o: ('sd', l.split()[1], o), tag='sd:', retry=1)   # schedules are forced: a real failure reproduces
     new = res.failures[before:]
     if new and not [f for f in new if f['kind'] == 'oracle']:
         # the tie to the model broke without a failing input: search more schedules with the direct oracle only
